@@ -114,13 +114,41 @@ Theorem c16_own_logout_ok :
 Proof. exact c16_logout_ok_lemma. Qed.
 Print Assumptions c16_own_logout_ok.
 
-(* the Reject path of Session::process (an f8Exception without force_logoff, here a missing mandatory
-   field) increments next_recv without updating the control record: control (3, 2), session (3, 3). *)
-Theorem c16_reject_refuted :
-  ctrl_and_seq (run_history demo_schema h_reject) = Some (Some (3, 2), 3, 3) /\
-  c16_ok h_reject (run_history demo_schema h_reject) = false.
-Proof. exact c16_reject_refuted_lemma. Qed.
-Print Assumptions c16_reject_refuted.
+(* c16_control_inbound: every way out of Session::process except the force_logoff path -- the normal return
+   and, since /repo beb4ce7, the Reject path (an f8Exception without force_logoff thrown by the decoder or a
+   handler) -- leaves the control record of a file persister equal to (next_send, next_recv).  The force_logoff
+   path (sequence / CompID violation) is NOT repaired: known finding C16-force-logoff-control-stale. *)
+Theorem c16_control_inbound : forall sc decode now seqnum mt m s,
+  let r := process_body sc decode now seqnum m s in
+  (match fst (fst r) with inr (Exc _ true) => False | _ => True end) ->
+  let r' := process_catch sc now seqnum mt r in
+  p_kind (s_per (snd (fst r'))) = PFile ->
+  p_get_ctrl (s_per (snd (fst r'))) = Some (s_next_send (snd (fst r')), s_next_recv (snd (fst r'))).
+Proof. exact c16_inbound_control_lemma. Qed.
+Print Assumptions c16_control_inbound.
+
+(* the same for a Reject caused before or outside process_body (the decoder's exception, a message without 34=). *)
+Theorem c16_control_reject : forall sc now seqnum mt text s1 e1,
+  let r := process_catch sc now seqnum mt (inr (Exc text false), s1, e1) in
+  p_kind (s_per (snd (fst r))) = PFile ->
+  p_get_ctrl (s_per (snd (fst r))) = Some (s_next_send (snd (fst r)), s_next_recv (snd (fst r))).
+Proof. exact c16_reject_control_lemma. Qed.
+Print Assumptions c16_control_reject.
+
+(* c16_reject_orig_refuted (repaired by beb4ce7): the ORIGINAL catch block incremented next_recv without updating
+   the control record: control (3, 1) against the session's (3, 2); the code as it is writes (3, 2). *)
+Theorem c16_reject_orig_refuted :
+  ctrl_vs_seq (process_catch_orig demo_schema T0 2 None (inr (Exc txt_x false), st0, [])) = (Some (3, 1), 3, 2) /\
+  ctrl_vs_seq (process_catch demo_schema T0 2 None (inr (Exc txt_x false), st0, [])) = (Some (3, 2), 3, 2).
+Proof. exact c16_reject_orig_refuted_lemma. Qed.
+Print Assumptions c16_reject_orig_refuted.
+
+(* a history with a rejected inbound message (missing mandatory field) now satisfies the whole oracle. *)
+Theorem c16_reject_ok :
+  ctrl_and_seq (run_history demo_schema h_reject) = Some (Some (3, 3), 3, 3) /\
+  c16_ok h_reject (run_history demo_schema h_reject) = true.
+Proof. exact c16_reject_ok_lemma. Qed.
+Print Assumptions c16_reject_ok.
 
 (* non-vacuity of c16_consecutive: singles, a batch of three and admin sends meet its hypotheses; the
    seven new messages carry 1..7 and the control record ends at (8, 1). *)
